@@ -515,3 +515,29 @@ func vGenHist(r *rand.Rand, lpConflictIsBad bool) vHist {
 	return h
 }
 
+
+// the history as operations of Model/FrrMgr.v and the results the harness observed (a history that
+// completed: every operation but the refused Sets returned no error)
+func vMopTerms(h vHist, resync func(step int) string) (string, string) {
+	var ops, oks []string
+	for step, op := range h.Ops {
+		b := h.Base[op.Sess]
+		b.Advs = nil
+		switch op.Kind {
+		case "new":
+			ops = append(ops, cCtor("MNew", cSess(b)))
+		case "set", "setbad":
+			var advs []string
+			for _, a := range op.Advs {
+				advs = append(advs, cAdv(a))
+			}
+			ops = append(ops, cCtor("MSet", cSess(b), cList(advs)))
+		case "close":
+			ops = append(ops, cCtor("MClose", cSess(b)))
+		case "resync":
+			ops = append(ops, resync(step))
+		}
+		oks = append(oks, cBool(op.Kind != "setbad"))
+	}
+	return cList(ops), cList(oks)
+}
